@@ -1,15 +1,16 @@
 INIT Init
 NEXT MCNext
 CONSTANTS
-  Stacks <- Stacks1
+  Stacks <- StackFull1
+  Indeps <- OnlyIndep
   Targets <- AllTargets
-  MaxHooks = 1
+  MaxHooks = 0
   InitRegs <- NoRegs
-  RegClasses <- C4RegClasses
+  RegClasses <- C4RegClassesQ
   RegBehs <- C4RegBehs
   MaxRegs = 2
-  RaiseClasses <- C4Raise
-  RenderClasses <- C4Render
+  RaiseClasses <- C4RaiseQ
+  RenderClasses <- C4RenderQ
   Mro <- MCMro
   StatusOf <- MCStatus
   WrongDesign = "none"
